@@ -515,6 +515,18 @@ theorem eachRemove_keeps (w : Width) (r : S) (rm : Nat → Bool) {y : Nat} (hy :
   · exact loop32_keeps rm hy _ _ _ h
   · exact loop64_keeps rm hy _ _ _ h
 
+/-! ### commutative.go -/
+
+theorem commContains_iff {dc : List S} {v : Nat} : commContains dc v = true ↔ ∃ d ∈ dc, v ∈ d := by
+  simp only [commContains, List.any_eq_true, Bool.and_eq_true, decide_eq_true_eq, has_iff]
+  constructor
+  · rintro ⟨d, hd, _, hv⟩; exact ⟨d, hd, hv⟩
+  · rintro ⟨d, hd, hv⟩; exact ⟨d, hd, List.length_pos_of_mem hv, hv⟩
+
+theorem commDuplexesContains_iff {ors ands : List (List S)} {v : Nat} :
+    commDuplexesContains ors ands v = true ↔ (∃ dc ∈ ors, ∃ d ∈ dc, v ∈ d) ∧ (∀ dc ∈ ands, ∃ d ∈ dc, v ∈ d) := by
+  simp only [commDuplexesContains, Bool.and_eq_true, List.any_eq_true, List.all_eq_true, commContains_iff]
+
 /-! ### CheckedAdd on spec traces -/
 namespace Spec
 
